@@ -235,7 +235,8 @@ class C14(Check):
     quick_runs = 1600
     thorough_runs = 16000
     principal_faults = ('sigint',)
-    expected_probes = ('sigint-while-t.join', 'sigint-while-running', 'second-interrupt', 'interrupt-with-workers-executing')
+    expected_probes = ('sigint-while-t.join', 'sigint-while-running', 'second-interrupt', 'interrupt-with-workers-executing',
+                       'sigint-inside-proxy-call')
     rule = ('serial backend: one run per line-event index of the calling thread inside labtech during run_tasks (exhaustive per '
             'workload) plus sampled interrupt pairs; process backends: seeded (specification, schedule, interrupt instants); '
             'distinct = distinct (specification digest, schedule digest, interrupt instants); non-trivial = an interrupt was delivered')
@@ -290,7 +291,31 @@ class C14(Check):
                         k2 = rng.randrange(60) if rng.random() < 0.7 else rng.randrange(300)
                         cases.append({'workload': name, 'backend': backend, 'sched': sched,
                                       'interrupts': [{'mode': 'line', 'k': k1}, {'mode': 'line', 'k': k2}]})
-                    info.append({'workload': name, 'backend': backend, 'schedule': sched, 'line_events_in_run_tasks': n})
+                    # ... and every manager proxy call of the calling thread (its queue polls), between the
+                    # request being sent and the reply being read - with and without the task monitor, whose
+                    # polls of the process-event queue are proxy calls of the calling thread as well
+                    n_rpcs = {}
+                    for monitor in (False, True):
+                        sc = s2_scenario(name, backend)
+                        if monitor:
+                            sc['progress'] = True
+                        d = tempfile.mkdtemp(dir=workdir)
+                        try:
+                            out = execute(sc, Choices(seed=f'c14s2:{sched}'), d)
+                        finally:
+                            shutil.rmtree(d, ignore_errors=True)
+                        n_rpc = out.main_rpcs
+                        n_rpcs['monitor' if monitor else 'plain'] = n_rpc
+                        for k in range(n_rpc):
+                            cases.append({'workload': name, 'backend': backend, 'sched': sched, 'monitor': monitor,
+                                          'interrupts': [{'mode': 'rpc', 'k': k}]})
+                        for _ in range(40 if tier == 'quick' else 200):
+                            k1 = rng.randrange(max(1, n_rpc))
+                            second = {'mode': 'rpc', 'k': rng.randrange(12)} if rng.random() < 0.5 else {'mode': 'line', 'k': rng.randrange(200)}
+                            cases.append({'workload': name, 'backend': backend, 'sched': sched, 'monitor': monitor,
+                                          'interrupts': [{'mode': 'rpc', 'k': k1}, second]})
+                    info.append({'workload': name, 'backend': backend, 'schedule': sched, 'line_events_in_run_tasks': n,
+                                 'proxy_calls_in_run_tasks': n_rpcs})
         return cases, {'exhaustive': True, 'per_workload': info,
                        'what': 'single interrupt at every line-event index of the calling thread inside labtech during run_tasks: serial backend '
                                '(two workloads) and simulated fork / spawn backends (two workloads, fixed schedules)'}
@@ -299,6 +324,8 @@ class C14(Check):
         s2 = case.get('backend') in ('fork', 'spawn')
         sc = s2_scenario(case['workload'], case['backend']) if s2 else s0_scenario(case['workload'])
         sc['interrupts'] = case['interrupts']
+        if case.get('monitor'):
+            sc['progress'] = True
         if s2 and len(case['interrupts']) >= 2:
             sc['starve_after'] = 2
         d = tempfile.mkdtemp(dir=workdir)
@@ -313,7 +340,7 @@ class C14(Check):
                 vs = check_serial_interrupt(sc, out, d, len(case['interrupts']))
             at = [e for e in out.events if e[0] == 'sigint']
             for v in vs:
-                v['detail'] += f' [interrupt(s) at main-thread line index {[i["k"] for i in case["interrupts"]]}; {fired} delivered]'
+                v['detail'] += f' [interrupt(s) at main-thread {[(i["mode"], i["k"]) for i in case["interrupts"]]}; {fired} delivered]'
         finally:
             shutil.rmtree(d, ignore_errors=True)
         r = result_record(self.id, sc, out, vs, None)
@@ -322,6 +349,10 @@ class C14(Check):
         r['sample'] = {'case': case, 'outcome': r['outcome'], 'faults': r['faults']}
         if fired >= 2:
             r['probes']['second-interrupt'] = 1
+        if out.fault_counts.get('sigint-inside-proxy-call'):
+            r['probes']['sigint-inside-proxy-call'] = 1
+        if any(e[0] == 'rpc-stale-reply' for e in out.events):
+            r['probes']['stale-proxy-reply-read'] = 1
         return r
 
     # -- S2 sampled
@@ -332,17 +363,23 @@ class C14(Check):
         n_int = 1 + ft.weighted([3, 3])
         specs = []
         for j in range(n_int):
-            if ft.chance(2, 3):
+            w = ft.weighted([6, 3, 3])
+            if w == 0:
                 # while the main thread is blocked (almost always in the helper thread's join)
                 specs.append({'mode': 'blocked', 'j': ft.draw(6) if j == 0 else ft.draw(3), 'd': ft.draw(12)})
-            else:
+            elif w == 1:
                 specs.append({'mode': 'line', 'k': ft.draw(900) if j == 0 else ft.draw(200)})
+            else:
+                # inside a queue poll of the calling thread: request sent, reply not yet read
+                specs.append({'mode': 'rpc', 'k': ft.draw(40) if j == 0 else ft.draw(10)})
         sc['interrupts'] = specs
         if n_int >= 2:
             sc['starve_after'] = 2
         sc['swarm']['gate_mode'] = ft.pick(['hold', 'hold', 'free'])
         if ft.chance(1, 3):
             sc['line_coord'] = True
+        if ft.chance(1, 3):
+            sc['progress'] = True
         return sc
 
     def run(self, ch, workdir, tier):
@@ -361,7 +398,7 @@ class C14(Check):
         if len(sigs) >= 2:
             r['probes']['second-interrupt'] = 1
         for k, v in out.fault_counts.items():
-            if k.startswith('sigint-while-'):
+            if k.startswith('sigint-while-') or k == 'sigint-inside-proxy-call':
                 r['probes'][k] = v
         if sigs:
             first = sigs[0][0]
